@@ -10,9 +10,10 @@ def trace (w : World) : List Event → List (World × Event)
 
 theorem run_cons (w : World) (e : Event) (es : List Event) : run w (e :: es) = run (step w e) es := rfl
 
-/-- `x` is a (non-bypassed) resolution through dae stored under cache key `ck` with original
-deadline `od`. -/
-def IsUpdate (x : World × Event) (ck : Str) (od : Int) : Prop :=
+/-- `x` stored a DNS cache entry under cache key `ck` with original deadline `od`: a (non-bypassed)
+resolution through dae (`od` = time of the event + TTL), or an entry carried over from the previous
+generation by `RestoreReloadCache` (with the original deadline it had there). -/
+def Stored (x : World × Event) (ck : Str) (od : Int) : Prop :=
   (∃ h q ttl key, x.2 = .dnsUpdate h q ttl key ∧ (dnsUpdate x.1 h q ttl key).2 = true ∧
     updateKey h q key = ck ∧ od = x.1.now + ttl) ∨
   -- … or an entry carried over from the previous generation by `RestoreReloadCache`
@@ -29,8 +30,8 @@ def IsPositiveProbe (x : World × Event) (d : Str) : Prop :=
     ((probeResult x.1 ans).err4 && (probeResult x.1 ans).err6) = false
 
 structure Inv (T : List (World × Event)) (w : World) : Prop where
-  cache : ∀ ck od, (ck, od) ∈ w.cache → ∃ x ∈ T, IsUpdate x ck od ∧ x.1.now ≤ w.now
-  know : ∀ bk e, (bk, e) ∈ w.know → ∃ x ∈ T, ∃ ck, IsUpdate x ck e ∧ baseKeyOf ck = bk ∧ x.1.now ≤ w.now
+  cache : ∀ ck od, (ck, od) ∈ w.cache → ∃ x ∈ T, Stored x ck od ∧ x.1.now ≤ w.now
+  know : ∀ bk e, (bk, e) ∈ w.know → ∃ x ∈ T, ∃ ck, Stored x ck e ∧ baseKeyOf ck = bk ∧ x.1.now ≤ w.now
   real : ∀ d, d ∈ w.realSet → ∃ x ∈ T, IsPositiveProbe x d
 
 /-- `w'` has no new cache / knowledge / verified entries and a clock not earlier than `w`. -/
@@ -197,7 +198,7 @@ theorem Inv.step {T : List (World × Event)} {w : World} (h : Inv T w) (e : Even
         · rename_i hp; rw [if_neg hp] at hb; simp at hb
       rw [this]; exact hw
     | true =>
-      have hu : IsUpdate (w, Event.dnsUpdate host is4 ttl key) (updateKey host is4 key) (w.now + ttl) :=
+      have hu : Stored (w, Event.dnsUpdate host is4 ttl key) (updateKey host is4 key) (w.now + ttl) :=
         Or.inl ⟨host, is4, ttl, key, rfl, hb, rfl, rfl⟩
       have e1 : (dnsUpdate w host is4 ttl key).1 =
           remember { w with cache := w.cache.put (updateKey host is4 key) (w.now + ttl) }
@@ -273,7 +274,7 @@ theorem Inv.step {T : List (World × Event)} {w : World} (h : Inv T w) (e : Even
         intro w' hsub hnow hi
         rcases e with ⟨ck, od⟩
         show Inv _ (dnsRestore (remember { w' with cache := w'.cache.put ck od } (baseKeyOf ck) od) es')
-        have hsrc : IsUpdate (w, Event.dnsRestore es) ck od := Or.inr ⟨es, rfl, hsub _ (by simp)⟩
+        have hsrc : Stored (w, Event.dnsRestore es) ck od := Or.inr ⟨es, rfl, hsub _ (by simp)⟩
         obtain ⟨rk, rc, rr, rn⟩ := remember_know { w' with cache := w'.cache.put ck od } (baseKeyOf ck) od
         apply ih _ (fun x hx => hsub x (List.mem_cons_of_mem _ hx)) (by rw [rn]; exact hnow)
         refine ⟨fun ck' od' hm => ?_, fun bk e hm => ?_, fun d hm => ?_⟩
@@ -553,5 +554,46 @@ theorem dnsUpdate_holds (w : World) (host : Str) (is4 : Nat) (ttl : Int) (key : 
       · exact Or.inl ⟨_, Assoc.get_put_self _ _ _, Int.le_refl _⟩
       · rename_i hlt
         exact Or.inl ⟨cur, hg, by omega⟩
+
+/-! ## well-keyed histories -/
+
+/-- the FQDN `__updateDnsCacheDeadline` derives from its `host` argument -/
+def fqdnOf (host : Str) : Str := if host.getLast? = some '.' then host.map lowerAscii else canonicalName host
+
+theorem updateKey_eq (h : Str) (q : Nat) (key : Str) :
+    updateKey h q key = if key = [] then cacheKeyQ (fqdnOf h) q else key := rfl
+
+/-- the key an update is stored under belongs to the family of ITS OWN question (name, type). True
+of every production caller (`responseCacheKey(c.cacheKey(qname, qtype), …)`, dns_control.go) as long
+as the name contains no `|`; see `wellKeyed_of_production`. -/
+def WellKeyed : Event → Prop
+  | .dnsUpdate h q _ key => baseKeyOf (updateKey h q key) = cacheKeyQ (fqdnOf h) q
+  | _ => True
+
+theorem baseKeyOf_noBar {s : Str} (h : hasChar '|' s = false) : baseKeyOf s = s := by
+  unfold baseKeyOf; rw [splitFirst_none h]
+
+theorem baseKeyOf_scoped {a sc : Str} (h : hasChar '|' a = false) : baseKeyOf (a ++ '|' :: sc) = a := by
+  unfold baseKeyOf; rw [splitFirst_append a sc h]
+
+theorem wellKeyed_of_production (h : Str) (q : Nat) (ttl : Int) (key : Str)
+    (hbar : hasChar '|' (cacheKeyQ (fqdnOf h) q) = false)
+    (hkey : key = [] ∨ ∃ sc, key = cacheKeyQ (fqdnOf h) q ++ '|' :: sc) :
+    WellKeyed (.dnsUpdate h q ttl key) := by
+  show baseKeyOf (updateKey h q key) = cacheKeyQ (fqdnOf h) q
+  rw [updateKey_eq]
+  rcases hkey with rfl | ⟨sc, rfl⟩
+  · simp only [if_true]; exact baseKeyOf_noBar hbar
+  · have : cacheKeyQ (fqdnOf h) q ++ '|' :: sc ≠ [] := by simp
+    rw [if_neg this]; exact baseKeyOf_scoped hbar
+
+theorem mem_trace_event (w : World) (es : List Event) (x : World × Event) (h : x ∈ trace w es) : x.2 ∈ es := by
+  induction es generalizing w with
+  | nil => simp [trace] at h
+  | cons e es ih =>
+    simp only [trace, List.mem_cons] at h
+    rcases h with rfl | h
+    · simp
+    · exact List.mem_cons_of_mem _ (ih _ h)
 
 end DaeVerif.C18
